@@ -391,8 +391,6 @@ proof fn lemma_split(n: int, st: int, m: int)
 //@@ rewrite "debug_assert_eq!(values.len() % size, 0);" => "debug_assert!(values.len() % size == 0);"
 //@@ rewrite "for (i, offset) in (offset..last_offset).step_by(2 * stride).enumerate().skip(1) {" => "for i in 1..(size / 2) { let offset = offset + i * (2 * stride);"
 //@@ rewrite "for offset in offset..(offset + count) {" => "let offset_lo = offset; let offset_hi = offset + count; for offset in offset_lo..offset_hi {"
-//@@ before "if stride == count"
-//@@|        proof { lemma_p2_half(m); lemma_split(n, st, m); }
 //@@ after "fft_in_place(values, twiddles, 2 * count, 2 * stride, offset);"
 //@@|            proof { lemma_halves_a(v0, values.v@, twiddles@, st, m); }
 //@@ after "fft_in_place(values, twiddles, count, 2 * stride, offset);"
@@ -469,6 +467,9 @@ fn fft_in_place(values: &mut Inputs, twiddles: &[B], count: usize, stride: usize
         lemma_split(n, st, m);
         assert(m * st >= 2 * st) by (nonlinear_arith) requires m >= 2, st > 0;
         assert(2 * st <= n);
+        // facts the recursive calls need (stated here, not at a statement anchor, so that an edited recursion condition
+        // fails an obligation instead of losing an anchor)
+        if m > 2 { lemma_p2_half(m); }
     }
     /*@@body*/
 }
